@@ -4,6 +4,7 @@ generate abstract instances -> oracle tables (harness/oracle.py, independent of 
 fresh objects in worker processes -> project the results to the contract's vocabulary -> MMTrace.tla judges every
 instance (parallel TLC processes, one verdict line per instance naming the failing clauses).
 """
+import copy
 import json
 import math
 import os
@@ -534,7 +535,30 @@ def run_search(inst, which, variant=None):
 
   def thunk():
     from matched_markets.methodology import tbrmatchedmarkets, _verif_trace
-    mmo = tbrmatchedmarkets.TBRMatchedMarkets(data, par)
+    if inst['id'] % 7 == 3 and not inst.get('decoy'):
+      # a RECONFIGURED searcher: it was built and used with other settings of the fields that are read at call time
+      # (result cap, tolerances, size / share / budget ranges, n_geos_max), then the caller assigned the intended
+      # values to the fields of its parameter object.  What was true of the earlier settings must be forgotten.
+      par0 = copy.copy(par)
+      par0.n_designs = par.n_designs + 2
+      par0.volume_ratio_tolerance = None if par.volume_ratio_tolerance is not None else 0.5
+      par0.geo_ratio_tolerance = None if par.geo_ratio_tolerance is not None else 1.0
+      for f in ('treatment_geos_range', 'control_geos_range', 'treatment_share_range', 'budget_range', 'n_geos_max'):
+        setattr(par0, f, None)
+      mmo = tbrmatchedmarkets.TBRMatchedMarkets(data, par0)
+      try:
+        mmo.count_max_designs()
+        if inst['n'] <= 5:
+          mmo.exhaustive_search()
+        mmo.greedy_search()
+        mmo.search_results()
+      except Exception:  # pylint: disable=broad-except
+        pass
+      for f in RECONFIGURED:
+        setattr(mmo.parameters, f, getattr(par, f))
+      box['par'] = mmo.parameters
+    else:
+      mmo = tbrmatchedmarkets.TBRMatchedMarkets(data, par)
     if inst.get('decoy'):
       interfere(mmo)
     _verif_trace.set_sink(lambda e, f: events.append((e, f)))
@@ -552,6 +576,8 @@ def run_search(inst, which, variant=None):
   return out
 
 
+RECONFIGURED = ('n_designs', 'volume_ratio_tolerance', 'geo_ratio_tolerance', 'treatment_geos_range', 'control_geos_range',
+                'treatment_share_range', 'budget_range', 'n_geos_max')
 _DECOY = {}
 
 
